@@ -2850,7 +2850,7 @@ int x509_exts_check(const uint8_t *exts, size_t extslen, int cert_type,
 	VERIF_LOOP_INVARIANT(exts == VERIF_LOOP_ENTRY(exts) + (VERIF_LOOP_ENTRY(extslen) - extslen))
 	VERIF_LOOP_INVARIANT(*path_len_constraint == path_len && path_len >= -1)
 	VERIF_LOOP_INVARIANT(verif_x_unknown_critical == VERIF_LOOP_ENTRY(verif_x_unknown_critical))
-	VERIF_LOOP_INVARIANT(ca == -1 || (verif_x_bc_calls != VERIF_LOOP_ENTRY(verif_x_bc_calls) && verif_x_bc_last_ca == ca && verif_x_bc_last_ret == 1))
+	VERIF_LOOP_INVARIANT(ca == -1 || (verif_x_bc_last_ca == ca && verif_x_bc_last_ret == 1))
 	VERIF_LOOP_DECREASES(extslen)
 	{
 		if (x509_ext_from_der(&oid, nodes, &nodes_cnt, &critical, &val, &vlen, &exts, &extslen) != 1) {
